@@ -269,6 +269,18 @@ def Trace.stop (o : Outcome) : Trace := { sent := [], calls := [], provCalls := 
 def Trace.pre (s : List Sent) (c : List Call) (t : Trace) : Trace :=
   { t with sent := s ++ t.sent, calls := c ++ t.calls }
 
+/-! #### what the driver's own diagnostics may depend on -/
+
+/-- a request with the token bytes blanked -/
+def Sent.redact : Sent → Sent
+  | .authResponse _ => .authResponse []
+  | s => s
+
+/-- everything that can be observed of a connection attempt EXCEPT the bytes of the tokens: which requests were
+    written, which calls were made on the authenticator, the provider calls, how the attempt ended (the error that is
+    returned to the caller and printed by the logger is a function of this) -/
+def Trace.redact (t : Trace) : Trace := { t with sent := t.sent.map Sent.redact }
+
 /-- the `for` loop of authenticateHandshake after an AUTH_RESPONSE was written; `chal` is the `challenger`
     variable (nil after `PasswordAuthenticator.Challenge`) -/
 def authLoop (chal : Option AuthImpl) : List SFrame → Trace
